@@ -385,7 +385,7 @@ def run(ctx):
                         'float32 cost accumulation compared within 2^-20 relative (2^-16 for the LUT models)',
                         'per-channel search with 0-bit: residual add with the network input in the same sharing group is not generated']
 
-    if not ctx.violations and not ctx.known_printed:
+    if not ctx.violations:      # known (open) findings are always hit here: they must not hide a broken proof / model
         if not built:
             ctx.violation('proof-broken', {'theorems': [o_[0] for o_ in ctx.obligations if not o_[1]], 'log': getattr(ctx, 'broken_log', '')[-3000:]}, 'Props/C05.v no longer checks', no_input=True)
         elif not model_ok:
